@@ -85,8 +85,24 @@ pub fn install_crash_handler(crash_file: &str) {
     let fd = unsafe { libc::open(c.as_ptr(), libc::O_WRONLY | libc::O_CREAT | libc::O_TRUNC, 0o644) };
     CRASH_FD.store(fd, Ordering::Relaxed);
     unsafe {
+        // the handler runs on its own stack: a stack overflow in the code under test (unbounded
+        // recursion) must still be recorded with its case number
+        const ALT: usize = 1 << 16;
+        let stack = libc::mmap(std::ptr::null_mut(), ALT, libc::PROT_READ | libc::PROT_WRITE, libc::MAP_PRIVATE | libc::MAP_ANONYMOUS, -1, 0);
+        if stack != libc::MAP_FAILED {
+            let ss = libc::stack_t {
+                ss_sp: stack,
+                ss_flags: 0,
+                ss_size: ALT,
+            };
+            libc::sigaltstack(&ss, std::ptr::null_mut());
+        }
         for sig in [libc::SIGABRT, libc::SIGSEGV, libc::SIGBUS, libc::SIGILL, libc::SIGFPE] {
-            libc::signal(sig, on_fatal_signal as *const () as libc::sighandler_t);
+            let mut sa: libc::sigaction = std::mem::zeroed();
+            sa.sa_sigaction = on_fatal_signal as *const () as usize;
+            sa.sa_flags = libc::SA_ONSTACK;
+            libc::sigemptyset(&mut sa.sa_mask);
+            libc::sigaction(sig, &sa, std::ptr::null_mut());
         }
     }
 }
